@@ -57,7 +57,7 @@ def build():
     fcntl.flock(lock, fcntl.LOCK_EX)
     try:
         env = dict(os.environ, PYTHONPATH="")
-        for gen, out in (("gen_consts.py", "Consts.v"), ("gen_callgraph.py", "CallGraph.v")):
+        for gen, out in (("gen_consts.py", "Consts.v"), ("gen_callgraph.py", "CallGraph.v"), ("gen_helpers.py", "GenHelpers.v")):
             g = os.path.join(HERE, gen)
             if not os.path.exists(g):
                 continue
@@ -207,7 +207,13 @@ def main(argv):
     known_lines = []
     b = build()
     propfile = "theories/Props/%s.v" % prop
-    files = cone(propfile) if os.path.exists(os.path.join(COQ, propfile)) else []
+    propfiles = [propfile] if os.path.exists(os.path.join(COQ, propfile)) else []
+    # further theorem files of the same property (Props/<id>b.v ...)
+    for extra in sorted(glob.glob(os.path.join(COQ, "theories", "Props", prop + "?.v"))):
+        propfiles.append("theories/Props/" + os.path.basename(extra))
+    files = []
+    for pf in propfiles:
+        cone(pf, files)
     obligations, names = count_obligations(files)
     proof_problems = []
     if b["translator_errors"]:
@@ -222,22 +228,27 @@ def main(argv):
         proof_problems.append("forbidden constructs: " + "; ".join(bad[:5]))
     closed, axioms = 0, []
     if files and not broken:
-        rc, closed, axioms, out = assumptions(propfile)
-        if rc != 0:
-            proof_problems.append("property file fails: " + out[-300:])
+        closed, axioms, n_pa, n_thm = 0, [], 0, 0
+        for pf in propfiles:
+            rc, c1, a1, out = assumptions(pf)
+            closed += c1
+            axioms += a1
+            if rc != 0:
+                proof_problems.append("property file %s fails: %s" % (pf, out[-300:]))
+            src = re.sub(r"\(\*.*?\*\)", "", open(os.path.join(COQ, pf)).read(), flags=re.S)
+            n_pa += len(re.findall(r"^\s*Print\s+Assumptions\b", src, flags=re.M))
+            n_thm += len(re.findall(r"^\s*(?:Theorem|Corollary)\s", src, flags=re.M))
         extra = [a for a in axioms if a not in ALLOWED_AXIOMS]
         if extra:
             proof_problems.append("theorems depend on axioms: " + ", ".join(extra))
-        src = re.sub(r"\(\*.*?\*\)", "", open(os.path.join(COQ, propfile)).read(), flags=re.S)
-        n_pa = len(re.findall(r"^\s*Print\s+Assumptions\b", src, flags=re.M))
-        n_thm = len(re.findall(r"^\s*(?:Theorem|Corollary)\s", src, flags=re.M))
         if closed < max(n_pa, spec.get("min_closed", 1)) or n_pa < n_thm:
             proof_problems.append("Print Assumptions: %d of %d commands report a closed theorem (%d theorems in the file)"
                                   % (closed, n_pa, n_thm))
     coqchk_summary = None
     if tier == "thorough" and files and not proof_problems:
         # independent re-check of the compiled property module and everything it depends on
-        rc, o = sh("timeout 3000 coqchk -silent -o -Q theories Traph Traph.Props.%s 2>&1 | tail -14" % prop, 3100, cwd=COQ)
+        mods = " ".join("Traph.Props." + os.path.basename(pf)[:-2] for pf in propfiles)
+        rc, o = sh("timeout 3000 coqchk -silent -o -Q theories Traph %s 2>&1 | tail -14" % mods, 3100, cwd=COQ)
         coqchk_summary = " ".join(o.split())
         if "Axioms: <none>" not in coqchk_summary or "type-in-type: <none>" not in coqchk_summary:
             proof_problems.append("coqchk does not report an axiom-free, check-complete context: " + coqchk_summary[-300:])
@@ -272,7 +283,7 @@ def main(argv):
         "property_id": prop, "tier": tier, "seed": seed, "level": "proof",
         "coverage": dict({
             "obligations": max(obligations, 1), "discharged": max(discharged, 0) if proof_problems else max(obligations, 1),
-            "checker_cmd": "cd /verif/coq && make (coqc 8.16.1, full .vo) && coqc -Q theories Traph %s  # Print Assumptions" % propfile,
+            "checker_cmd": "cd /verif/coq && make (coqc 8.16.1, full .vo) && coqc -Q theories Traph %s  # Print Assumptions" % " ".join(propfiles or [propfile]),
             "trusted_base": P.TRUSTED_BASE + spec.get("trusted", []),
             "theorems": spec.get("theorems", []),
             "print_assumptions_closed": closed, "axioms": axioms, "coqchk": coqchk_summary,
